@@ -15,6 +15,11 @@ EPS = 1e-9
 INST_CAP = 60
 
 
+def eff_prio(spec):
+    """Effective priority of a handler: nominal priority + the relative priority its callable carries."""
+    return spec["prio"] + spec.get("rel", 0)
+
+
 def crash_sig(txt):
     t = re.sub(r"0x[0-9a-f]+", "0x", txt)
     t = re.sub(r"\d+", "N", t)
@@ -350,12 +355,18 @@ class World:
     def _mk_handler(self, spec):
         kind = spec["kind"]
         if kind == "relay":
-            return self._mk_relay_handler(spec)
-        if kind == "bool":
-            return self._mk_bool_handler(spec)
-        if kind == "coro":
+            fn = self._mk_relay_handler(spec)
+        elif kind == "bool":
+            fn = self._mk_bool_handler(spec)
+        elif kind == "coro":
             return self._mk_coro_handler(spec)
-        return self._mk_queue_handler(spec)
+        else:
+            fn = self._mk_queue_handler(spec)
+        if spec.get("rel"):
+            from mpf.core.events import event_handler
+            fn = event_handler(spec["rel"])(fn)       # sets fn.relative_priority, added inside add_handler
+            self.ctx.probe("relative_priority_handler")
+        return fn
 
     def _mk_queue_handler(self, spec):
         hid = spec["hid"]
@@ -365,7 +376,7 @@ class World:
             if queue is None:
                 raise AssertionError("harness: queue handler %d called without queue" % hid)
             inst = self.attribute(spec["ev"], kwargs)
-            self.enter(inst, hkey, spec["prio"], queue)
+            self.enter(inst, hkey, eff_prio(spec), queue)
             if spec["kind"] == "wait":
                 if spec["ev"] in MSTART:
                     self.ctx.probe("mode_starting_waiter")
@@ -418,23 +429,40 @@ class World:
         hkey = ("h", hid)
 
         async def body(inst, wid):
-            for seg in spec["segs"]:
-                self.deadline(self.now() + seg["d"])
-                await asyncio.sleep(seg["d"])
-                self.check_stuck()
-                self.run_acts(seg["acts"], inst)
-                if "await_q" in seg:
-                    self.ctx.probe("nested_queue_in_waiting_handler")
-                    fut = self.post_event("queue_async", seg["await_q"][0], seg["await_q"][1])
-                    if fut is not None:
-                        await fut
-            # model: the wait ends here (the adapter clears it in the task's done callback right after)
-            self.wait_end(inst, wid)
+            # The wait the event manager registered for this coroutine ends when the coroutine ends - also when
+            # it ends cancelled (the adapter clears it in the task's done callback right after).
+            try:
+                cancel = spec.get("cancel")
+                if cancel and cancel[0] == "task":
+                    # the handler task is cancelled from outside through a handle we keep
+                    task = asyncio.current_task()
+                    self.sim.at(self.deadline(self.now() + cancel[1]), self._cancel_task, task, hid)
+                for seg in spec["segs"]:
+                    self.deadline(self.now() + seg["d"])
+                    await asyncio.sleep(seg["d"])
+                    self.check_stuck()
+                    self.run_acts(seg["acts"], inst)
+                    if "await_q" in seg:
+                        self.ctx.probe("nested_queue_in_waiting_handler")
+                        fut = self.post_event("queue_async", seg["await_q"][0], seg["await_q"][1])
+                        if fut is not None:
+                            await fut
+                if cancel and cancel[0] == "fut":
+                    # the coroutine awaits a future whose owner cancels it
+                    fut = self.loop.create_future()
+                    self.sim.at(self.deadline(self.now() + cancel[1]), self._cancel_future, fut, hid)
+                    await fut
+            except asyncio.CancelledError:
+                self.log("coro_cancelled", hid)
+                self.ctx.probe("coro_ends_cancelled")
+                raise
+            finally:
+                self.wait_end(inst, wid)
 
         def starter(**kwargs):
             # called synchronously by EventManager._async_handler_coroutine (after it registered the wait)
             inst = self.attribute(spec["ev"], kwargs)
-            self.enter(inst, hkey, spec["prio"], None)
+            self.enter(inst, hkey, eff_prio(spec), None)
             self.ctx.probe("coro_handler")
             self.tokens += 1
             wid = ("tok", self.tokens)
@@ -442,12 +470,26 @@ class World:
             return body(inst, wid)
         return starter
 
+    def _cancel_task(self, task, hid):
+        self.check_stuck()
+        if not task.done():
+            self.log("cancel_task", hid)
+            self.ctx.probe("coro_task_cancelled")
+            task.cancel()
+
+    def _cancel_future(self, fut, hid):
+        self.check_stuck()
+        if not fut.done():
+            self.log("cancel_future", hid)
+            self.ctx.probe("coro_awaited_future_cancelled")
+            fut.cancel()
+
     def _mk_relay_handler(self, spec):
         hid = spec["hid"]
 
         def handler(**kwargs):
             inst = self.attribute(spec["ev"], kwargs)
-            self.enter(inst, ("h", hid), spec["prio"], None)
+            self.enter(inst, ("h", hid), eff_prio(spec), None)
             expected = dict(inst.cur)
             expected.update(spec.get("reg", {}))
             if any(k in inst.cur for k in spec.get("reg", {})):
@@ -471,7 +513,7 @@ class World:
 
         def handler(**kwargs):
             inst = self.attribute(spec["ev"], kwargs)
-            self.enter(inst, ("h", hid), spec["prio"], None)
+            self.enter(inst, ("h", hid), eff_prio(spec), None)
             self.run_acts(spec["acts"], inst)
             ret = spec["ret"]
             if ret is False:
@@ -583,9 +625,18 @@ class World:
         else:
             fut = self.ev.post_queue_async(ev, **full) if how == "queue_async" else \
                 self.ev.post_relay_async(ev, **full)
-            fut.add_done_callback(lambda f: self._completed(inst, f.result()))
+            fut.add_done_callback(lambda f: self._async_done(inst, f))
             return fut
         return None
+
+    def _async_done(self, inst, f):
+        if f.cancelled():
+            # the coroutine awaiting this future was cancelled: the completion of the nested event is no
+            # longer observable; only its handler-level rules stay in force
+            inst.has_cb = False
+            self.log("awaiter_cancelled", inst.name, inst.iid)
+            return
+        self._completed(inst, f.result())
 
     def _completed(self, inst, k):
         if self.empty_inflight.get(inst.name) is inst:
